@@ -26,7 +26,7 @@ struct lookup
 };
 
 config* g_cfg;
-lookup g_l[K];
+lookup g_l[K + 1];
 int g_nl = 0, g_ops = 0, g_ncomplete = 0;
 long g_prev_lo = 0, g_prev_hi = 0;   // bounds of the completion time of the last host-name lookup
 long g_gap[K];
@@ -117,8 +117,18 @@ void model_cancel(long now)
 
 void next_op(error_code const&);
 
-void do_op()
+void issue(int op, long now);
+
+void do_op(int forced = -1)
 {
+	if (forced >= 0)
+	{
+		int const op = forced;
+		long const now = now_ns();
+		vp_log(2, op, now, 1);
+		issue(op, now);
+		return;
+	}
 #ifdef SMALL
 	// reduced alphabet: one literal op (IPv4 for even, IPv6 for odd lookups)
 	int const op4 = vp_choose(4);
@@ -128,6 +138,11 @@ void do_op()
 #endif
 	long const now = now_ns();
 	vp_log(2, op, now, 0);
+	issue(op, now);
+}
+
+void issue(int op, long now)
+{
 	if (op <= 2)
 	{
 		int const id = g_nl++;
@@ -227,7 +242,16 @@ extern "C" int harness_main()
 		ur = new udp::resolver(ios); ctx<udp>::res = ur;
 		g_do_cancel = &ctx<udp>::do_cancel; g_do_resolve = &ctx<udp>::do_resolve;
 	}
+#ifdef EARLY
+	// preset: the driver's timer is armed (for a symbolic instant) before a host-name lookup is started, so that
+	// when both are due at the same instant the driver's operations run first, with the resolver's own timer
+	// completion already queued behind them
+	g_gap[0] = vp_sym_long(1, 300000000L);
 	schedule();
+	do_op(0);
+#else
+	schedule();
+#endif
 	s.run();
 	int aborted = 0, ok = 0;
 	for (int i = 0; i < g_nl; ++i)
